@@ -366,6 +366,22 @@ def cases(ctx):
             out.append({'seeds': ss, 'kind': kind, 'rules': rs,
                         'entry': ('objects', 'text', 'mols')[len(out) % 3],
                         'asym': True})
+    # seeds written WITH atom-map labels ([CH2:1]=C): a label is not part of
+    # the species; the same species reached again without it (reaction SMARTS
+    # strip labels from products) or with it elsewhere is the same species
+    for ss in (['[CH2:1]=C'], ['[CH3:1]C'], ['[CH3:1]CC'], ['[CH3:7][OH:2]'],
+               ['C[CH2:3]O'], ['[CH2:1]=[CH:2]C'], ['[CH3:1][CH2]']):
+        for kind, rs in (('smarts', ['bond order increase C-C',
+                                     'bond order decrease C=C']),
+                         ('smarts', ['dehydrogenation to C=C',
+                                     'bond order decrease C=C']),
+                         ('smarts', ['C-H scission']),
+                         ('ring', ['C=C to diradical',
+                                   '1,2-diradical to C=C']),
+                         ('ring', ['C-C scission', 'C-H scission'])):
+            out.append({'seeds': ss, 'kind': kind, 'rules': rs,
+                        'entry': ('objects', 'text', 'mols')[len(out) % 3],
+                        'asym': True, 'labelled': True})
     # degenerate sizes: no rule at all (the closure is the seed set), no seed
     for ss in seedsets[:12]:
         out.append({'seeds': ss, 'kind': 'smarts', 'rules': [],
